@@ -180,7 +180,7 @@ def run(db, rep):
         try:
             m.call(s, thisloc, [a])
             if not h.added:
-                stats["setter adds no option on the analysed path"] += 1
+                rep.violation("R10-option-inverse", key, site, "the setter stores no option at all: the value is lost")
                 continue
             r = m.call(g, thisloc, [])
             bits = c15.result_bits(m, r)
@@ -225,8 +225,12 @@ def flat_bits(db, t, base=0, depth=0, zeros=None):
             zeros.extend(base + i for i in range(n, size))
         return [base + i for i in range(n)]
     r = db.records.get(name)
-    if r is None or depth > 4 or r.get("bases"):
+    if r is None or depth > 4:
         return None
+    for b_ in r.get("bases", []):
+        rb = db.records.get(b_)
+        if rb is None or rb.get("fields") or rb.get("bases"):
+            return None
     if name in ("Tins::IPv4Address", "Tins::IPv6Address") or (name or "").startswith("Tins::HWAddress<"):
         return [base + i for i in range((t.get("size") or r["size"]) * 8)]
     out = []
